@@ -16,6 +16,7 @@
    never decrease.  (Which version number a publication carries is compared in step 3 only.)
 """
 import json
+import os
 import time
 
 import vlib
@@ -180,6 +181,35 @@ OVERTAKE_HOLDS = [{"point": pt, "until": until, "max_ms": 400, "skip": skip, "co
                   for skip in skips]
 
 
+QUIET_MS = [300]        # only used by the binary without hooks (idle = nothing received for this long)
+
+
+def get_bindir():
+    """lspdrive with hook H2; when the hooks build does not compile against the tree (a change that is fine in the
+    production configuration may not be under cfg(tablegen_lsp_verif), e.g. destructuring ServerSnapshot, which has a Drop
+    impl only there) the binary without hooks is used: no holds, idleness by a quiet period, the LARGE family below
+    provides the long batches.  Returns (bindir, hooks, failure or None)."""
+    try:
+        if os.environ.get("C11_FORCE_NOHOOKS"):          # debugging aid: exercise the fallback on a tree that does compile
+            raise vlib.BuildError("forced by C11_FORCE_NOHOOKS")
+        return vlib.build_harness(True, bins=["lspdrive", "idedump"]), True, None
+    except vlib.BuildError as ex:
+        QUIET_MS[0] = 1200
+        return (vlib.build_harness(False, bins=["lspdrive", "idedump"]), False,
+                {"kind": "harness-build", "file": "lspdrive with hook H2 does not compile against this tree (the production build does)",
+                 "error": str(ex)[-1200:]})
+
+
+def large_history(n):
+    """a root including n faulty files (a long diagnostics batch), opened and immediately changed twice"""
+    disk = {"f%03d.td" % i: "def x%d : Missing%d;\n" % (i, i) for i in range(n)}
+    inc = "".join('include "f%03d.td"\n' % i for i in range(n))
+    return {"disk": disk, "mode": "burst", "holds": None, "large": n,
+            "steps": [{"open": "a.td", "text": inc + "def r : MissingR;\n"},
+                      {"change": "a.td", "text": inc + "class MissingR;\ndef r : MissingR;\n"},
+                      {"change": "a.td", "text": inc + "def r : MissingR;\n"}]}
+
+
 def tail_steps(h):
     """wait_idle after every notification except between the last two; returns (steps, index of the penultimate
     notification in the step list)"""
@@ -258,9 +288,9 @@ def session_script(h, mode, holds=None):
             holds = tail_holds(h.get("tail_k", 0), arm)
             h["holds"] = holds
         return {"files_on_disk": [[p, t] for p, t in sorted(h["disk"].items())], "mode": "burst", "watchdog_ms": 8000,
-                "quiet_ms": 300, "hard_ms": 60000, "steps": sl.cap_in_flight(steps + [{"wait_idle": True}]), "holds": holds}
+                "quiet_ms": QUIET_MS[0], "hard_ms": 60000, "steps": sl.cap_in_flight(steps + [{"wait_idle": True}]), "holds": holds}
     return {"files_on_disk": [[p, t] for p, t in sorted(h["disk"].items())], "mode": mode, "watchdog_ms": 8000,
-            "quiet_ms": 300, "hard_ms": 60000,
+            "quiet_ms": QUIET_MS[0], "hard_ms": 60000,
             "steps": sl.cap_in_flight(h["steps"] + ([{"wait_idle": True}] if mode == "burst" else [])),
             "holds": holds or []}
 
@@ -359,8 +389,10 @@ def reorder_holds(k):
 
 def run(ctx):
     t0 = time.time()
-    bindir = vlib.build_harness(True, bins=["lspdrive", "idedump"])
+    bindir, hooks, build_fail = get_bindir()
     fails = vlib.proof_step(ctx, "TG.Props.C11", THEOREMS, ["props/C11.vo"], trusted_base=TRUSTED, translators=["t_server"])
+    if build_fail:
+        fails.append(build_fail)
     exe = vlib.build_model("server")
     t_setup = time.time() - t0
 
@@ -381,6 +413,10 @@ def run(ctx):
         else:
             h["mode"], h["holds"], h["tail_k"] = "tail", None, i // 8
         hists.append(h)
+    hists += [large_history(300 if ctx.quick else 600) for _ in range(2 if hooks else 4)]
+    if not hooks:
+        # no holds without hooks: the held families would only repeat the plain ones
+        hists = [h for h in hists if not h.get("holds") and h["mode"] != "tail"]
     maps = expected_maps(bindir, hists)
     scripts = [session_script(h, h["mode"], h.get("holds")) for h in hists]
     outs = sl.run_sessions(bindir, scripts)
@@ -445,7 +481,7 @@ def run(ctx):
     for f in oracle_fail[:3]:
         h = f["history"]
         ctx.violation("history of %d notification(s): %s" % (len(notifs(h)), f["failures"][0]["what"]),
-                      {"property": "C11", "seed": ctx.seed, "disk": h["disk"], "steps": h["steps"], "mode": h.get("mode", "settled"),
+                      {"property": "C11", "seed": ctx.seed, "disk": h["disk"], "steps": h["steps"], "mode": h.get("mode", "settled"), "hooks": hooks,
                        "holds": h.get("holds"), "failures": f["failures"][:6],
                        "observed_stream": [[v, p, ds] for v, p, ds in f["observed"]][-12:],
                        "expected": "last publication per file = ide-level diagnostics of the final workspace (empty outside it); versions never decrease"})
@@ -482,7 +518,7 @@ def replay(ctx, path):
         print(json.dumps(r, indent=1)[:4000])
         print("replay: this file names a broken proof obligation / tie, not a history; re-run ./check C11")
         return 1
-    bindir = vlib.build_harness(True, bins=["lspdrive", "idedump"])
+    bindir, _hooks, _bf = get_bindir()
     exe = vlib.build_model("server")
     h = {"disk": r["disk"], "steps": r["steps"], "mode": r.get("mode", "settled"), "holds": r.get("holds")}
     maps = expected_maps(bindir, [h])
